@@ -187,7 +187,8 @@ def d_member(m, depth, flags):
     if m.optional:
         o = C('FOptional')
     elif m.default is not None:
-        o = C('FDefault', d_default(m.default))
+        # below the depth limit the model answers the raw token (see Flatten.v wf_default)
+        o = C('FDefault', d_default(m.default) if depth > 0 else C('VRaw', '?'))
     else:
         o = C('FMandatory')
     return (m.name, None, d_type(m, depth, flags), o)
